@@ -167,6 +167,10 @@ void h_asn_encode_to_new_buffer(void) {
 		if(is_bytes_syntax(s) && q < total) __CPROVER_assert(((unsigned char *)res.buffer)[q] == payload[q], "C07: new buffer holds the encoding");
 	}
 	if(!have(s) || stub_fails()) __CPROVER_assert(res.result.encoded == -1, "C07: failure is -1");
+#ifndef VF_FINDING_D23
+#define VF_FINDING_D23 0
+#endif
+	if(VF_FINDING_D23 != 1 && res.result.encoded == -1) __CPROVER_assert(res.buffer == 0, "C07: asn_encode_to_new_buffer returns either the complete encoding or NULL (documented: buffer is NULL on failure)");
 	free(res.buffer);      /* with --memory-leak-check: nothing else stays allocated */
 }
 
